@@ -5,7 +5,7 @@
 \* instead of recursing forever.
 \*   def[n] = [k |-> "plain" | "ref" | "bad" | "absent", m |-> referred alias]   plain selector / refers to alias m / malformed text
 \*   status[n]: "text" (not compiled yet), "deleted" (being compiled), "compiled", "absent"
-\* Compile(:--n) with an explicit stack of names being compiled.  Outcome: "ok" | "SyntaxError".
+\* Compile(:--n) with an explicit stack of names being compiled.  Outcome: "ok" | "SelectorSyntaxError".
 \* T-Total: every start terminates (the stack never holds a name twice, so its depth is bounded by the
 \* number of names plus one) with exactly one outcome.
 EXTENDS Naturals, Sequences, FiniteSets
@@ -24,14 +24,14 @@ Step ==
     /\ outcome = "running" /\ Len(stack) > 0
     /\ LET n == Top IN
        CASE status[n] \in {"absent", "deleted"} ->       \* undefined (or being compiled: a cycle)
-              outcome' = "SyntaxError" /\ UNCHANGED <<def, status, stack>>
+              outcome' = "SelectorSyntaxError" /\ UNCHANGED <<def, status, stack>>
          [] status[n] = "compiled" ->                     \* use it; the referrer (if any) finishes
-              /\ stack' = SubSeq(stack, 1, Len(stack) - 1)
+              /\ stack' = IF Len(stack) = 1 THEN stack ELSE SubSeq(stack, 1, Len(stack) - 1)
               /\ status' = IF Len(stack) > 1 THEN [status EXCEPT ![stack[Len(stack) - 1]] = "compiled"] ELSE status
               /\ outcome' = IF Len(stack) = 1 THEN "ok" ELSE "running"
               /\ UNCHANGED def
          [] status[n] = "text" ->
-              IF def[n].k = "bad" THEN outcome' = "SyntaxError" /\ UNCHANGED <<def, status, stack>>
+              IF def[n].k = "bad" THEN outcome' = "SelectorSyntaxError" /\ UNCHANGED <<def, status, stack>>
               ELSE IF def[n].k = "plain"
                    THEN status' = [status EXCEPT ![n] = "compiled"] /\ UNCHANGED <<def, stack, outcome>>
               ELSE /\ status' = [status EXCEPT ![n] = "deleted"]      \* compiling a definition that refers to def[n][2]
